@@ -503,3 +503,50 @@ def rule_list_ops(prog, rep: Report, cf: CacheFacts, rule: str):
             continue
         rep.fn(m)
         c08_shape.check_method(prog, rep, cf.lf, m, rule=rule, role=f"listop:{name}")
+
+
+def rule_lookup_source(prog, rep: Report, cf: CacheFacts, rule: str):
+    """the dictionary is the only source of truth for 'is k stored': the node whose payload __getitem__ returns reaches the return
+    only from `self.<dict>[k]` (which raises KeyError for an absent key)"""
+    from ..flow import Flow
+    rep.rule(rule, "look-ups consult the dictionary: on every path of __getitem__ the node whose payload is returned was obtained "
+             "by subscripting the dict with the key parameter (so an absent or deleted key raises KeyError); a node remembered in "
+             "another field must not serve a look-up", floor=1)
+    f = cf.getitem
+    rep.fn(f)
+    k = f.params[1]
+    flow = Flow(f.node)
+    rets = [r for r in ast.walk(f.node) if isinstance(r, ast.Return) and r.value is not None]
+    if not rets:
+        rep.unrec(rule, f, "lookup-source", "no return in __getitem__")
+        return
+    bad = []
+    seen_ok = 0
+    for r in rets:
+        roots = []
+        for n in ast.walk(r.value):
+            if isinstance(n, ast.Name) and isinstance(n.ctx, ast.Load) and n.id not in (f.self_name, k):
+                roots.append(n)
+        direct = any(isinstance(n, ast.Subscript) and cf.is_dict(n.value, f) and src(n.slice) == k for n in ast.walk(r.value))
+        if not roots and not direct:
+            bad.append((r.lineno, f"`{src(r)}` does not return the payload of a node"))
+            continue
+        for n in roots:
+            for d in flow.defs_of(n):
+                v = d.value
+                if isinstance(v, ast.Subscript) and cf.is_dict(v.value, f) and src(v.slice) == k:
+                    seen_ok += 1
+                elif d.kind == "param":
+                    continue
+                else:
+                    bad.append((getattr(d.node, "lineno", r.lineno),
+                                f"`{n.id}` can reach `{src(r)}` from `{src(v) if isinstance(v, ast.AST) else d.kind}`, not from "
+                                f"self.{cf.dict_field}[{k}]"))
+    if bad:
+        ln, why = sorted(set(bad))[0]
+        rep.viol(rule, f, "lookup-source", why,
+                 scenario="c[k]; del c[k]; c[k] returns the stale value instead of raising KeyError (and `k in c` stays True)", line=ln)
+    elif seen_ok or all(any(isinstance(n, ast.Subscript) and cf.is_dict(n.value, f) for n in ast.walk(r.value)) for r in rets):
+        rep.ok(rule, f, "lookup-source", f"the returned node comes from self.{cf.dict_field}[{k}] on every path")
+    else:
+        rep.unrec(rule, f, "lookup-source", "source of the returned payload not recognised")
